@@ -123,3 +123,45 @@ Theorem C13_served_outside_known : forall hmac parse cfg s conn line now tok key
                (KnownClass (Some uid) c = false -> policy s (Some uid) c).
 Proof. exact served_reachable. Qed.
 Print Assumptions C13_served_outside_known.
+
+(** A GRANT (REVOKE) naming several event types is the sequence of the single-type GRANTs
+    (REVOKEs): each step reads the permissions the previous ones left and the loop stops at the
+    first failing step. *)
+Theorem C13_grant_many_eq_fold : forall ts s r w id,
+  grant_loop s r w ts id = fold_left (then_grant r w id) ts (OExec, s).
+Proof. exact grant_many_eq_fold. Qed.
+Print Assumptions C13_grant_many_eq_fold.
+
+Theorem C13_revoke_many_eq_fold : forall ts s r w id,
+  revoke_loop s r w ts id = fold_left (then_revoke r w id) ts (OExec, s).
+Proof. exact revoke_many_eq_fold. Qed.
+Print Assumptions C13_revoke_many_eq_fold.
+
+(** The same at the level of the dispatcher (the admin check answers the same before every step). *)
+Theorem C13_dispatch_grant_many : forall s who r w t ts id k, reachable s ->
+  dispatch s who (CGrant r w (t :: ts) id) k =
+  match dispatch s who (CGrant r w [t] id) k with
+  | (OExec, s') => dispatch s' who (CGrant r w ts id) k
+  | other => other
+  end.
+Proof. exact dispatch_grant_many. Qed.
+Print Assumptions C13_dispatch_grant_many.
+
+(** After an executed multi-type GRANT / REVOKE each listed type holds what IT held before plus /
+    minus the named permissions, independently of what the user holds on the other listed types,
+    of the order of the list and of repetitions; unlisted types are untouched. *)
+Theorem C13_grant_many_entry : forall ts s r w id s',
+  grant_loop s r w ts id = (OExec, s') ->
+  (forall t, In t ts ->
+     entry s' id t = Some (mkPerm (p_read (get_permission s id t) || r) (p_write (get_permission s id t) || w))) /\
+  (forall t, ~ In t ts -> entry s' id t = entry s id t).
+Proof. exact grant_many_entry. Qed.
+Print Assumptions C13_grant_many_entry.
+
+Theorem C13_revoke_many_entry : forall ts s r w id s',
+  revoke_loop s r w ts id = (OExec, s') ->
+  (forall t, In t ts ->
+     entry s' id t = Some (mkPerm (p_read (get_permission s id t) && negb r) (p_write (get_permission s id t) && negb w))) /\
+  (forall t, ~ In t ts -> entry s' id t = entry s id t).
+Proof. exact revoke_many_entry. Qed.
+Print Assumptions C13_revoke_many_entry.
